@@ -52,6 +52,139 @@ fn convert_once(secs: &[(String, Vec<u8>)], e: RunTimeEndian) -> Result<Vec<(Str
     Ok(sections_to_vec(&mut sections))
 }
 
+// ---- `c12-lineenc <from version> <to version> <32|64> <files> <rows>`: the stepwise line-program API with
+// the documented `encoding` override (`write::Dwarf::read_line_program(.., Some(encoding), ..)` +
+// `ConvertLineProgram::convert`): a program of one version converted into a program of another.
+// `<files>` = `name:dir,...` (dir 0 = the compilation directory, 1/2 = include directories),
+// `<rows>` = the file (position in `<files>`) of each row. The meaning of every row — address, line,
+// end_sequence, "directory/file" — must be the same before and after, or the conversion must fail.
+
+fn lineenc_rows(dwarf: &gimli::read::Dwarf<R<'_>>) -> Result<Vec<(u64, u64, bool, String)>, String> {
+    let header = dwarf.units().next().map_err(|e| format!("{e:?}"))?.ok_or("no unit")?;
+    let unit = dwarf.unit(header).map_err(|e| format!("{e:?}"))?;
+    let program = unit.line_program.clone().ok_or("no line program")?;
+    let mut out = Vec::new();
+    let mut rows = program.rows();
+    let mut steps = 0;
+    while let Some((header, row)) = rows.next_row().map_err(|e| format!("{e:?}"))? {
+        steps += 1;
+        if steps > 4096 {
+            return Err("steps".into());
+        }
+        let path = if row.end_sequence() {
+            String::new()
+        } else {
+            let file = row.file(header).ok_or("row without a valid file")?;
+            let dir = file.directory(header).ok_or("file without a valid directory")?;
+            let dir = dwarf.attr_string(&unit, dir).map_err(|e| format!("{e:?}"))?;
+            let name = dwarf.attr_string(&unit, file.path_name()).map_err(|e| format!("{e:?}"))?;
+            format!("{}/{}", String::from_utf8_lossy(dir.slice()), String::from_utf8_lossy(name.slice()))
+        };
+        out.push((row.address(), row.line().map(|l| l.get()).unwrap_or(0), row.end_sequence(), path));
+    }
+    Ok(out)
+}
+
+fn lineenc_unit(dwarf: &mut write::Dwarf, enc: Encoding, program: write::LineProgram) -> Result<Vec<(String, Vec<u8>)>, String> {
+    let mut unit = write::Unit::new(enc, program);
+    let root = unit.root();
+    unit.get_mut(root).set(gimli::DW_AT_name, WAttr::String(b"main.c".to_vec()));
+    unit.get_mut(root).set(gimli::DW_AT_comp_dir, WAttr::String(b"/comp".to_vec()));
+    unit.get_mut(root).set(gimli::DW_AT_stmt_list, WAttr::LineProgramRef);
+    dwarf.units.add(unit);
+    let mut sections = Sections::new(EndianVec::new(RunTimeEndian::Little));
+    dwarf.write(&mut sections).map_err(|e| format!("write:{e:?}"))?;
+    Ok(sections_to_vec(&mut sections))
+}
+
+fn c12_lineenc(from: u16, to: u16, format: Format, files: &[(String, usize)], row_files: &[usize]) -> String {
+    use gimli::write::{LineProgram, LineString};
+    let enc = |version| Encoding { format, version, address_size: 8 };
+    let mut from_dwarf = write::Dwarf::new();
+    let fe = enc(from);
+    let mut program = LineProgram::new(
+        fe,
+        gimli::LineEncoding::default(),
+        LineString::new(&b"/comp"[..], fe, &mut from_dwarf.line_strings),
+        None,
+        LineString::new(&b"main.c"[..], fe, &mut from_dwarf.line_strings),
+        None,
+    );
+    let dirs = [
+        program.default_directory(),
+        program.add_directory(LineString::new(&b"inc1"[..], fe, &mut from_dwarf.line_strings)),
+        program.add_directory(LineString::new(&b"inc2"[..], fe, &mut from_dwarf.line_strings)),
+    ];
+    let ids: Vec<_> = files.iter().map(|(name, dir)| program.add_file(LineString::new(name.as_bytes(), fe, &mut from_dwarf.line_strings), dirs[*dir % 3], None)).collect();
+    program.begin_sequence(Some(Address::Constant(0x1000)));
+    for (n, f) in row_files.iter().enumerate() {
+        let Some(id) = ids.get(*f) else { return "bad-op".into() };
+        program.row().file = *id;
+        program.row().line = 10 * (n as u64 + 1);
+        program.row().address_offset = 4 * n as u64;
+        program.generate_row();
+    }
+    program.end_sequence(4 * row_files.len() as u64);
+    let secs_a = match lineenc_unit(&mut from_dwarf, fe, program) {
+        Ok(s) => s,
+        Err(x) => return format!("ok input-rejected:{x}"),
+    };
+    let read_a = load(&secs_a, RunTimeEndian::Little);
+    let expected = match lineenc_rows(&read_a) {
+        Ok(r) => r,
+        Err(x) => return format!("ok input-unreadable:{x}"),
+    };
+    let from_program = {
+        let Ok(Some(h)) = read_a.units().next() else { return "ok input-unreadable:unit".into() };
+        let Ok(u) = read_a.unit(h) else { return "ok input-unreadable:unit".into() };
+        let Some(p) = u.line_program.clone() else { return "ok input-unreadable:program".into() };
+        p
+    };
+    let mut to_dwarf = write::Dwarf::new();
+    let convert = match to_dwarf.read_line_program(&read_a, from_program, Some(enc(to)), None) {
+        Ok(c) => c,
+        Err(x) => return format!("ok failed:{}", format!("{x:?}").split('(').next().unwrap()),
+    };
+    let (program, _files) = match convert.convert(&|a| Some(Address::Constant(a))) {
+        Ok(p) => p,
+        Err(x) => return format!("ok failed:{}", format!("{x:?}").split('(').next().unwrap()),
+    };
+    let secs_b = match lineenc_unit(&mut to_dwarf, enc(to), program) {
+        Ok(s) => s,
+        Err(x) => return format!("ok failed:{x}"),
+    };
+    let read_b = load(&secs_b, RunTimeEndian::Little);
+    match lineenc_rows(&read_b) {
+        Ok(actual) if actual == expected => format!("ok same {}", expected.len()),
+        Ok(actual) => {
+            let k = expected.iter().zip(actual.iter()).take_while(|(a, b)| a == b).count();
+            format!("ok differs #oracle:line-rows-retargeted row {k}: input {:x?} output {:x?}", expected.get(k), actual.get(k))
+        }
+        Err(x) => format!("ok differs #oracle:output-unreadable {x}"),
+    }
+}
+
+fn gen_lineenc(ctx: &Ctx, emit: &mut dyn FnMut(String)) {
+    let mut rng = ctx.rng(1299);
+    // every version pair x both formats with a fixed small program, then random tables
+    for from in 2..=5u16 {
+        for to in 2..=5u16 {
+            for fmt in ["32", "64"] {
+                emit(format!("c12-lineenc {from} {to} {fmt} main.c:0,a.h:1,b.h:2,c.c:0 0,1,2,3"));
+                emit(format!("c12-lineenc {from} {to} {fmt} main.c:0,a.h:1,b.h:1,unused.h:0 0,1,2"));
+                emit(format!("c12-lineenc {from} {to} {fmt} x.c:2 0,0"));
+            }
+        }
+    }
+    for _ in 0..ctx.n(300, 6000) {
+        let (from, to) = (2 + rng.below(4), 2 + rng.below(4));
+        let nf = 1 + rng.below(5) as usize;
+        let files: Vec<String> = (0..nf).map(|i| format!("{}:{}", if i == 0 && rng.chance(1, 2) { "main.c".to_string() } else { format!("f{i}.c") }, rng.below(3))).collect();
+        let rows: Vec<String> = (0..(1 + rng.below(6))).map(|_| rng.below(nf as u64).to_string()).collect();
+        emit(format!("c12-lineenc {from} {to} {} {} {}", rng.pick(&["32", "64"]), files.join(","), rows.join(",")));
+    }
+}
+
 fn first_diff(a: &[String], b: &[String]) -> String {
     for (i, (x, y)) in a.iter().zip(b.iter()).enumerate() {
         if x != y {
@@ -182,6 +315,16 @@ pub fn handle(op: &str, a: &[&str]) -> Option<String> {
         ("c12-frame", [e, kind, asz, h]) => Some(c12_frame(endian(e)?, *kind == "eh", asz.parse().ok()?, &unhex(h)?)),
         // expression component (c12/expr.rs); the map argument is for the Model only
         ("c12-expr", [e, asz, fmt, ver, x, _map, addr]) => Some(c12_expr(endian(e)?, ex_encoding(asz, fmt, ver)?, &unhex(x)?, &unhex(addr)?)),
+        ("c12-lineenc", [from, to, fmt, files, rows]) => {
+            let (from, to): (u16, u16) = (from.parse().ok()?, to.parse().ok()?);
+            if !(2..=5).contains(&from) || !(2..=5).contains(&to) {
+                return Some("bad-op".into());
+            }
+            let format = match *fmt { "32" => Format::Dwarf32, "64" => Format::Dwarf64, _ => return None };
+            let files: Vec<(String, usize)> = files.split(',').map(|f| f.split_once(':').and_then(|(n, d)| Some((n.to_string(), d.parse().ok()?)))).collect::<Option<_>>()?;
+            let rows: Vec<usize> = rows.split(',').map(|r| r.parse().ok()).collect::<Option<_>>()?;
+            Some(c12_lineenc(from, to, format, &files, &rows))
+        }
         ("c12-vtexpr", [e, asz, fmt, ver, x, _map, addr]) => {
             let (e, enc, x, addr) = (endian(e)?, ex_encoding(asz, fmt, ver)?, unhex(x)?, unhex(addr)?);
             EX_AT.with(|c| c.set(gimli::DW_AT_vtable_elem_location));
@@ -1016,6 +1159,7 @@ pub fn gen(ctx: &Ctx, emit: &mut dyn FnMut(String)) {
     let _ = Tier::Quick;
     // expression component: Model/ConvOp.lean vs Expression::from (c12/expr.rs)
     ex_gen(ctx, emit);
+    gen_lineenc(ctx, emit);
 }
 
 include!("c12/expr.rs");
